@@ -159,6 +159,9 @@ impl Property for P {
     fn chunk(_t: Tier) -> u64 {
         40
     }
+    fn case_timeout() -> Duration {
+        Duration::from_secs(90)
+    }
     fn replay_repeats() -> u32 {
         20
     }
@@ -191,7 +194,8 @@ impl Property for P {
                     }
                 };
                 // keep the number of rotations moderate
-                let total = u64::from(threads) * u64::from(per_thread) * 40;
+                let avg = (lens.iter().map(|l| (*l).max(12) + 1).sum::<usize>() / lens.len().max(1)) as u64;
+                let total = u64::from(threads) * u64::from(per_thread) * avg;
                 let size = size.max(total / 300);
                 Case {
                     tz: crate::vtime::tz_name(),
